@@ -1,7 +1,7 @@
 (* C01 — every XML stream the library emits is well-formed. *)
 From Odf Require Import model.Base model.Chars model.XmlPrint model.XmlLex model.XmlTree model.Inst
   gen.GenChars proofs.XmlPrintProofs proofs.XmlLexProofs proofs.XmlTokProofs proofs.XmlResolveProofs
-  proofs.XmlRoundTrip proofs.XmlInst.
+  proofs.XmlRoundTrip proofs.XmlInst model.NsTable gen.GenNs proofs.NsTableProofs proofs.NsInst.
 
 (* after the filter only XML 1.0 Char code points remain, for every Python string *)
 Theorem C01_only_chars : forall s, in_codespace s ->
@@ -27,3 +27,11 @@ Print Assumptions C01_document.
 Theorem C01_filter_covers : ranges_subset xml10_illegal filtered_ranges = true.
 Proof. exact F_covers_illegal. Qed.
 Print Assumptions C01_filter_covers.
+
+(* "whatever the process has serialised before": under the namespace table reached by ANY history of
+   library use, every tree whose names are known to that table serialises to a well-formed document *)
+Theorem C01_history : forall ops q atts kids, Forall (op_ok F) ops ->
+  tree_ok (nsp (reach ops)) (Elem q atts kids) = true -> atts_distinct (Elem q atts kids) = true ->
+  exists t, xml_parse (xml_prologue ++ node_toXml F (nsp (reach ops)) true (Elem q atts kids)) = Some t.
+Proof. intros. eexists. now apply reachable_roundtrip. Qed.
+Print Assumptions C01_history.
